@@ -224,6 +224,8 @@ def pat_tests(subject, pt):
     if k == "lit":
         if isinstance(s, tuple) and s and s[0] == "lit" and len(s) == 2:
             return [] if s[1] == pt[1] and type(s[1]) is type(pt[1]) else False
+        if isinstance(pt[1], bool):
+            return [("cond", s, pt[1])]       # `match b { true => .. }` tests the boolean itself
         return [("eq", s, pt[1])]
     if k == "tuple":
         out = []
